@@ -111,6 +111,10 @@ func legFor(property string, rng *rand.Rand, tier string) string {
 			return "search"
 		case x < 72:
 			return "search-tiny"
+		case x < 75:
+			// one search to depth 50+ on a root with a tiny tree: plies beyond 32,
+			// iterations up to the ply cap (wave 12)
+			return "search-deep"
 		}
 		return "uci-real"
 	case "C07":
